@@ -36,11 +36,27 @@ Fixpoint y_field (name : string) (l : list (yaml * yaml)) : option yaml :=
   | _ :: l' => y_field name l'
   end.
 
+(** serde_yaml deserialises the document text directly into the struct: any scalar in a list of
+    strings is taken as its source text (the harness writes integers in decimal, booleans as
+    true/false, null as null). *)
+Definition y_scalar_text (y : yaml) : option string :=
+  match y with
+  | YStr s => Some s
+  | YNum n => Some (num_display n)
+  | YBool true => Some "true"
+  | YBool false => Some "false"
+  | YNull => Some "null"
+  | _ => None
+  end.
+
 Fixpoint y_strings (l : list yaml) : option (list string) :=
   match l with
   | [] => Some []
-  | YStr s :: l' => option_map (cons s) (y_strings l')
-  | _ => None
+  | y :: l' =>
+      match y_scalar_text y, y_strings l' with
+      | Some s, Some ss => Some (s :: ss)
+      | _, _ => None
+      end
   end.
 
 Definition y_string_list (what : string) (o : option yaml) : res (list string) :=
@@ -61,7 +77,7 @@ Definition node_of_yaml (loc : list string) (doc : yaml) : res node :=
                | Some _ => Err (EYamlShape "parameters")
                end) ;;
       let classes' := fold_left u_append (map (abs_class_name loc) (u_from classes)) [] in
-      params <- mapping_of_yaml pdoc ;;
+      params <- try_mapping_of_yaml pdoc ;;
       Ok {| n_apps := r_from apps; n_classes := classes'; n_params := params; n_loc := loc |}
   | _ => Err (EYamlShape "document")
   end.
